@@ -455,6 +455,7 @@ PROPS["C10"] = dict(
 PROPS["C11"] = dict(
     title="Each accepted function ends in one return of the right form",
     projection="returns",
+    extra_files=["C11b"],
     monitors=[("C11", "all")],
     domain="accepted_wf",
     rule="accepted programs with returns nested at any depth in if / else-if / else / loop bodies; non-trivial = the "
@@ -462,10 +463,11 @@ PROPS["C11"] = dict(
     nontrivial=lambda prog, out, monline="": out.startswith("(out (errors) ") and "(JumpFunctionReturn " in out,
     level_text="Coq theorems over the model for ALL programs: in every function stack a with-label return is preceded by a "
                "jump-to-return and a plain return by none, and the block's flag equals 'a jump-to-return occurred' "
-               "(run_return_form); functions without nested blocks never emit a jump-to-return. PARTIAL: 'exactly one return "
-               "instruction, and it is last' for accepted programs is decided by the exact monitor chk_C11 on the "
-               "implementation's output and tied by the correspondence; it is not yet a theorem.",
-    assumptions=["'exactly one, last' clause: monitor + correspondence only"],
+               "(run_return_form); functions without nested blocks never emit a jump-to-return; and for ACCEPTED programs "
+               "the stack ends with exactly one function-return instruction, contains no other one, and has exactly one "
+               "jump-to-return per nested return statement of the source (run_single_return: the model always passes the exact "
+               "monitor chk_C11, which judges the implementation's outputs).",
+    assumptions=["the analysis of the program terminates without panic (C13)"],
 )
 
 
@@ -478,6 +480,7 @@ def extra_C18(prog, impl, monline):
 PROPS["C18"] = dict(
     title="The block-state tree mirrors the source nesting",
     projection="tree",
+    extra_files=["C18b"],
     monitors=[("C18", "all"), ("C18v", "accepted_wf")],
     extra_check=extra_C18,
     domain="all",
@@ -487,11 +490,11 @@ PROPS["C18"] = dict(
     nontrivial=lambda prog, out, monline="": out.count("(block ") >= 3,
     level_text="Coq theorems over the model for ALL programs: the tree of blocks has exactly the shape of the source nesting "
                "(else-if blocks are siblings; an else wins over an else-if), every block's stack is an order-preserving "
-               "subsequence of its parent's and of the root's. PARTIAL: the value-table clause (each block's table holds exactly "
-               "the names declared directly in it, bound to their latest declaration) is not yet a theorem: it is decided on the "
-               "implementation's outputs by the monitor chk_C18_values and tied by the correspondence on the tree projection; "
-               "parent links are positional in the model and checked with Rc::ptr_eq by the harness.",
-    assumptions=["value-table clause: monitor + correspondence only; parent links: harness check"],
+               "subsequence of its parent's and of the root's. For ACCEPTED programs each block's value table holds exactly "
+               "the names declared directly in it (parameters in the root), each bound to its latest declaration "
+               "(run_value_tables). Parent links are positional in the model (a tree has no back pointers); on the implementation "
+               "they are checked with Rc::ptr_eq by the harness for every block.",
+    assumptions=["parent links: positional in the model, Rc::ptr_eq in the harness"],
 )
 
 
